@@ -91,6 +91,7 @@ func (m singleModel) Initialise() (error, TimeSteppingModel, data.ND3Float64, da
 		states = model.InitialiseStates(1)
 	}
 	var inputs data.ND3Float64 = nil
+	nTimesteps := 0
 	for i, p := range desc.Inputs {
 		thisInput := m.Inputs.Find(p)
 		if thisInput == nil {
@@ -99,10 +100,23 @@ func (m singleModel) Initialise() (error, TimeSteppingModel, data.ND3Float64, da
 		}
 
 		if inputs == nil {
-			inputs = data.NewArray3DFloat64(1, len(desc.Inputs), len(thisInput))
+			nTimesteps = len(thisInput)
+			inputs = data.NewArray3DFloat64(1, len(desc.Inputs), nTimesteps)
+		}
+
+		if len(thisInput) != nTimesteps {
+			return errors.New(fmt.Sprintf("Input %s has %d values, expected %d (the length of the first input series supplied)", p, len(thisInput), nTimesteps)), nil, nil, nil, warnings
 		}
 
 		inputs.Apply([]int{0, i, 0}, 2, 1, thisInput)
+	}
+
+	if inputs == nil {
+		return errors.New("No input series provided: cannot determine the number of timesteps"), nil, nil, nil, warnings
+	}
+
+	if nTimesteps == 0 {
+		return errors.New("Input series are empty: nothing to run"), nil, nil, nil, warnings
 	}
 
 	return nil, model, inputs, states, warnings
